@@ -90,6 +90,7 @@ func c01Check(ctx *Ctx, idx int, cs coreCase) {
 		cls := classify(of, df, shadow, mode)
 		if cls != "" {
 			pinWitness("C01", cls, full)
+			ctx.Rep.Count("known:" + cls + " [" + mode + "]") // how often each open finding was met, per failure mode
 		}
 		ctx.Rep.Fail(hx.Failure{Kind: "property-fails", Class: cls, Detail: detail + " [" + mode + "]", Case: full, Impl: impl, Model: model, Index: idx})
 	}
